@@ -78,6 +78,19 @@ func c08Fixed(c *Ctx) ([]*zr.Program, []string) {
 		zr.ExprStmt{E: mc("乙户", "转", zr.N("甲户"), intLit(3))}, showObj("甲户"), showObj("乙户"),
 		zr.LetS("丙户", zr.New{Class: "账", Args: []zr.Expr{intLit(1)}}), showObj("丙户"),
 		zr.Return{E: mc("丙户", "查")})...)
+	// in-place updates of default-valued properties: every object has its own defaults
+	counter := zr.ClassDef{Name: "计数器", Props: []zr.PropDef{{Name: "次", Val: intLit(0)}, {Name: "名", Val: zr.S("默认")}, {Name: "记", Val: zr.ListLit{Items: []zr.Expr{intLit(0)}}}},
+		Methods: []*zr.FuncDef{
+			{Name: "增", Body: []zr.Stmt{zr.ExprStmt{E: zr.MCall{Recv: zr.ThisProp{Prop: "次"}, Chain: []zr.CallPart{{Fn: "自增", Args: []zr.Expr{intLit(1)}}}}}, zr.ExprStmt{E: zr.MCall{Recv: zr.Index{Recv: zr.ThisProp{Prop: "记"}, Idx: intLit(1)}, Chain: []zr.CallPart{{Fn: "自增", Args: []zr.Expr{intLit(10)}}}}}, zr.Return{E: zr.ThisProp{Prop: "次"}}}},
+		}}
+	showC := func(n string) zr.Stmt {
+		return zr.Show(zr.S(n), zr.Member{Recv: zr.N(n), Prop: "次"}, zr.Member{Recv: zr.N(n), Prop: "名"}, zr.Member{Recv: zr.N(n), Prop: "记"})
+	}
+	add("obj/in-place-default-update", counter, zr.LetS("甲器", zr.New{Class: "计数器"}), zr.LetS("乙器", zr.New{Class: "计数器"}),
+		zr.ExprStmt{E: mc("甲器", "增")}, zr.ExprStmt{E: mc("甲器", "增")}, zr.ExprStmt{E: mc("甲器", "增")}, showC("甲器"), showC("乙器"),
+		zr.LetS("丙器", zr.New{Class: "计数器"}), showC("丙器"), zr.ExprStmt{E: mc("丙器", "增")}, showC("甲器"), showC("乙器"), showC("丙器"),
+		zr.ExprStmt{E: zr.MCall{Recv: zr.Member{Recv: zr.N("乙器"), Prop: "次"}, Chain: []zr.CallPart{{Fn: "自减", Args: []zr.Expr{intLit(5)}}}}}, showC("甲器"), showC("乙器"), showC("丙器"),
+		zr.Return{E: zr.Member{Recv: zr.New{Class: "计数器"}, Prop: "次"}})
 	for given := 0; given <= 3; given++ {
 		args := []zr.Expr{}
 		for i := 0; i < given; i++ {
